@@ -132,7 +132,7 @@ func keyedRes(ms []*mrule, res string) bool {
 }
 
 func TestPerValueCap(t *testing.T) {
-	hx.Check(t, hx.N{Quick: 5000, Thorough: 30000}, func(t *rapid.T, c *hx.Case) {
+	hx.Check(t, hx.N{Quick: 25000, Thorough: 240000}, func(t *rapid.T, c *hx.Case) {
 		debug.SetGCPercent(-1)
 		runtime.GC()
 		runtime.GC()
@@ -294,7 +294,7 @@ func TestPerValueCap(t *testing.T) {
 // TestConcurrentQuiescence: many goroutines hammer a few values; when everything has exited every
 // value must admit exactly its threshold again (counters conserved), whatever happened in between.
 func TestConcurrentQuiescence(t *testing.T) {
-	hx.Check(t, hx.N{Quick: 150, Thorough: 1500}, func(t *rapid.T, c *hx.Case) {
+	hx.Check(t, hx.N{Quick: 750, Thorough: 12000}, func(t *rapid.T, c *hx.Case) {
 		old := runtime.GOMAXPROCS(8)
 		defer runtime.GOMAXPROCS(old)
 		hx.Reset(hx.Epoch)
